@@ -348,6 +348,10 @@ pub struct QueryRunner {
     pool: Option<VPool>,
     pleds: BTreeMap<usize, Ledger>,
     returned: BTreeSet<usize>,
+    /// configured query timeout of the pool and, per query, a moment at which it had already been
+    /// polled (its `started` stamp is not later than that)
+    pool_tmo: Duration,
+    polled_by: BTreeMap<usize, Instant>,
 }
 
 impl Default for QueryRunner {
@@ -360,6 +364,8 @@ impl Default for QueryRunner {
             pool: None,
             pleds: BTreeMap::new(),
             returned: BTreeSet::new(),
+            pool_tmo: Duration::from_millis(0),
+            polled_by: BTreeMap::new(),
         }
     }
 }
@@ -620,6 +626,8 @@ impl Runner for QueryRunner {
                     return;
                 };
                 self.pool = Some(VPool::new(Duration::from_millis(tmo)));
+                self.pool_tmo = Duration::from_millis(tmo);
+                self.polled_by.clear();
                 self.pleds.clear();
                 self.returned.clear();
                 stats.bump("q.pool.new");
@@ -755,7 +763,9 @@ impl Runner for QueryRunner {
                 // id -> (requests, final result)
                 let mut log: BTreeMap<usize, (Vec<Id>, Option<(&'static str, Vec<Id>)>)> = BTreeMap::new();
                 let mut fin = "cap";
+                let mut before_last = Instant::now();
                 for _ in 0..cap {
+                    before_last = Instant::now();
                     let ev = no_panic(AssertUnwindSafe(|| pool.poll()));
                     let Some(ev) = ev else {
                         out.push("!MON C09 poll-panicked".into());
@@ -810,6 +820,28 @@ impl Runner for QueryRunner {
                 }
                 if fin == "cap" {
                     out.push(format!("!MON C09 pool-no-termination polls={}", cap));
+                }
+                if fin == "wait" {
+                    // the pool says there is nothing to do: every lookup in it waits for answers (or
+                    // for a free slot).  One whose age has reached the query timeout must have been
+                    // cut off instead of being left waiting.
+                    for id in pool.ids() {
+                        let overdue = match self.polled_by.get(&id) {
+                            Some(t) => before_last.saturating_duration_since(*t) >= self.pool_tmo,
+                            None => self.pool_tmo.is_zero(),
+                        };
+                        if overdue {
+                            out.push(format!("!MON C09 lookup-past-query-timeout-left-waiting id={}", id));
+                        }
+                    }
+                    stats.bump("q.pool.wait-checked");
+                }
+                if fin == "wait" {
+                    // that last poll went over every lookup in the pool: all of them are started now
+                    let after = Instant::now();
+                    for id in pool.ids() {
+                        self.polled_by.entry(id).or_insert(after);
+                    }
                 }
                 let mut parts = Vec::new();
                 for (id, (em, f)) in &log {
